@@ -454,3 +454,22 @@ func contract_MessageInfo_unmarshalPointerLazy(mi *MessageInfo, b []byte, p poin
 	ensures(imp(err == nil, 0 <= out.n && out.n <= len(b)))
 	return
 }
+
+// specKeyLess: the documented deterministic order of map keys - false before true, numeric keys
+// ascending, strings in lexicographic byte order. reflect.Value's observers are uninterpreted
+// pure functions (the same on both sides); floats do not occur as map keys.
+//
+// @ pure reflect.Value.Kind reflect.Value.Bool reflect.Value.Int reflect.Value.Uint reflect.Value.Float reflect.Value.String
+func specKeyLess(x, y reflect.Value) bool {
+	switch x.Kind() {
+	case reflect.Bool:
+		return !x.Bool() && y.Bool()
+	case reflect.Int, reflect.Int8, reflect.Int16, reflect.Int32, reflect.Int64:
+		return x.Int() < y.Int()
+	case reflect.Uint, reflect.Uint8, reflect.Uint16, reflect.Uint32, reflect.Uint64, reflect.Uintptr:
+		return x.Uint() < y.Uint()
+	case reflect.String:
+		return x.String() < y.String()
+	}
+	return false
+}
